@@ -2274,6 +2274,12 @@ class AddPrefixSeries(Elemwise):
     _filter_passthrough = True
 
     def _divisions(self):
+        if not self.frame.known_divisions or not all(
+            isinstance(division, str) for division in self.frame.divisions
+        ):
+            # labels that are not strings sort differently once they are
+            # spelled out ("r11" < "r4")
+            return (None,) * (self.frame.npartitions + 1)
         return tuple(self.prefix + str(division) for division in self.frame.divisions)
 
 
@@ -2282,7 +2288,9 @@ class AddSuffixSeries(AddPrefixSeries):
     operation = M.add_suffix
 
     def _divisions(self):
-        return tuple(str(division) + self.suffix for division in self.frame.divisions)
+        # a suffix does not keep the order of the labels ("a" < "ab" but
+        # "a_s" > "ab_s")
+        return (None,) * (self.frame.npartitions + 1)
 
 
 class AddPrefix(Elemwise):
